@@ -365,6 +365,7 @@ type libStats struct {
 	Steps      int64
 	MaxCaseUs  int64
 	Slow       []string // cases that took more than a second
+	Samples    []string
 }
 
 type libFail struct {
@@ -591,6 +592,9 @@ func libChildMain(args []string) {
 		if us > 20000 {
 			dropGarbage()
 		}
+		if n%4999 == 7 && len(st.Samples) < 3 {
+			st.Samples = append(st.Samples, fmt.Sprintf("case %d %s [%s] input %s", n, lc.Entry, lc.Family, abbreviate(lc.In)))
+		}
 		if us > 1e6 && len(st.Slow) < 50 {
 			st.Slow = append(st.Slow, fmt.Sprintf("case %d %s [%s] %d ms", n, lc.Entry, lc.Family, us/1000))
 			writeStats()
@@ -631,6 +635,9 @@ func libWitnessOf(seed int64, n int, corpus *libCorpus) *libWitness {
 func runLibrary(total int) {
 	corpus := newLibCorpus()
 	per := total / 12
+	if per > 100000 {
+		per = 100000
+	}
 	if per < 1 {
 		per = total
 	}
@@ -722,6 +729,10 @@ func runLibrary(total int) {
 				w.Msg = msg
 				w.Stack = tail(crashExcerpt(string(logb)), 4000)
 				run.Count("lib.child_deaths", 1)
+				if n := hangSuspects.Add(1); n > 60 && run.Violations() > 0 && !abortRun.Load() {
+					abortRun.Store(true)
+					run.Inconclusive("more than 60 cases killed the process or ran into the watchdog and violations are already established: the remaining work is not run")
+				}
 				run.Violation("lib-"+kind+"/"+w.Entry+"@"+innermost(frames),
 					fmt.Sprintf("process died inside %s (family %s): %s; stack: %s", w.Entry, w.Family, msg, strings.Join(frames, " <- ")), w)
 			}
@@ -747,6 +758,11 @@ func accountLib(st *libStats, corpus *libCorpus, from, to int) {
 	}
 	for k, v := range st.Accepted {
 		run.Count("lib.accepted(lower bound)."+k, v)
+	}
+	for _, sm := range st.Samples {
+		if run.WantSample() {
+			run.Sample(sm)
+		}
 	}
 	for _, sl := range st.Slow {
 		run.Count("lib.slow_cases(>1s)", 1)
